@@ -83,7 +83,7 @@ def gen_library(seed, idx):
     # 2. callback arrangements
     for ci in range(rng.choice([2, 4, 6])):
         arr = rng.choice(['cb+data', 'x+cb+data', 'cb+data+destroy', 'cb+destroy', 'cb+other', 'cb1+data1+cb2+data2', 'cb1+cb2+data',
-                          'async+data', 'cancellable+async+data', 'cb+data+x', 'data+cb'])
+                          'async+data', 'cancellable+async+data', 'cb+data+x', 'data+cb', 'cb+destroy+data', 'x+cb+destroy+data'])
         dname = rng.choice(['user_data', 'data', 'func_data', 'cb_data'])
         P = {'cb': ('FooCallback', 'func'), 'cb1': ('FooCallback', 'func1'), 'cb2': ('FooCallback', 'func2'), 'data': ('gpointer', dname),
              'data1': ('gpointer', 'func1_data'), 'data2': ('gpointer', 'user_data'), 'destroy': ('GDestroyNotify', 'notify'),
@@ -278,14 +278,14 @@ def judge(lib, gir):
             def idx(n):
                 return str(byname[n][0]) if n in byname else None
             dname = [p for p in params if p[0] == 'gpointer' and p[1] in ('user_data', 'data', 'func_data', 'cb_data') and arr != 'cb1+data1+cb2+data2']
-            if arr in ('cb+data', 'x+cb+data', 'cb+data+destroy', 'cb+data+x'):
+            if arr in ('cb+data', 'x+cb+data', 'cb+data+destroy', 'cb+data+x', 'cb+destroy+data', 'x+cb+destroy+data'):
                 p = byname['func'][1]
                 if p.get('closure') != idx(dname[0][1]):
                     out.append(('closure', '%s [%s]: callback closure=%r, user data is parameter %s' % (name, arr, p.get('closure'), idx(dname[0][1]))))
                 d = byname[dname[0][1]][1]
                 if d.get('nullable') != '1':
                     out.append(('closure-nullable', '%s: user data parameter not nullable' % name))
-            if arr in ('cb+data+destroy', 'cb+destroy'):
+            if arr in ('cb+data+destroy', 'cb+destroy', 'cb+destroy+data', 'x+cb+destroy+data'):
                 p = byname['func'][1]
                 if p.get('destroy') != idx('notify') or p.get('scope') != 'notified':
                     out.append(('destroy', '%s [%s]: destroy=%r scope=%r, expected destroy=%s scope=notified' % (name, arr, p.get('destroy'), p.get('scope'), idx('notify'))))
